@@ -1,4 +1,287 @@
-/-! native driver `C11` (stub; replaced by the area's real driver) -/
+import PPLV.Checked.Spec
+/-!
+`pplv_c11`: reads the journal of `harness/c11_checked.cc` on stdin (grammar there) and, for every
+executed case, (1) runs the code-shaped model `IntOp.run`, (2) evaluates — independently of the
+model — `K4.holds`, `K4.directed`, `K4.overflowHolds` and `storedOK` **on the real output**
+against the exact result of the operation.
+
+Output: `ok <id> …` per case / per table, or
+`MISMATCH <id> <obligations joined by +> T=… P=… op=… dir=… to0=… x=… y=… e=… real=<stored>,<code>
+model=<stored>,<code> exact=… tags=…`
+where an obligation is `holds`, `directed`, `overflow`, `stored` (property clauses broken by the
+real output) or `model` (the real output differs from the model's).  `skip` counts cases outside
+the contract `IntOp.pre`.  At the end: `stat`, `sample` and `total` lines (evidence).
+-/
+open PPLV.Checked
+
+structure Cfg where
+  types : List (String × IntTy) := []
+  pols : List (String × Policy) := []
+
+def Cfg.ty (c : Cfg) (n : String) : Option IntTy := (c.types.find? (·.1 == n)).map (·.2)
+def Cfg.pol (c : Cfg) (n : String) : Option Policy := (c.pols.find? (·.1 == n)).map (·.2)
+
+def tokInt (s : String) : Int := s.toInt?.getD 0
+def tokNat (s : String) : Nat := s.toNat?.getD 0
+def tokB (s : String) : Bool := s != "0"
+
+def parseOp (c : Cfg) (s : String) : Option IntOp :=
+  match s with
+  | "neg" => some .neg | "abs" => some .abs | "add" => some .add | "sub" => some .sub | "mul" => some .mul
+  | "div" => some .div | "idiv" => some .idiv | "rem" => some .rem | "addMul" => some .addMul
+  | "subMul" => some .subMul | "add2exp" => some .add2exp | "sub2exp" => some .sub2exp
+  | "mul2exp" => some .mul2exp | "div2exp" => some .div2exp | "smod2exp" => some .smod2exp
+  | "umod2exp" => some .umod2exp | "sqrt" => some .sqrt | "gcd" => some .gcd | "lcm" => some .lcm
+  | _ =>
+    match s.splitOn ":" with
+    | ["assign", f, pf] => do
+      let ft ← c.ty f
+      let fp ← c.pol pf
+      some (.assign ft fp)
+    | _ => none
+
+def showExact : Exact → String
+  | .nan => "nan" | .minf => "-inf" | .pinf => "+inf"
+  | .frac n d => if d == 1 then toString n else s!"{n}/{d}"
+  | .sqrt n => s!"sqrt({n})"
+
+structure Stat where
+  n : Nat := 0
+  nontrivial : Nat := 0
+  skipped : Nat := 0
+  bad : Nat := 0
+
+structure St where
+  cfg : Cfg := {}
+  stats : List (String × Stat) := []       -- key "T P op"
+  samples : List String := []
+  nSamplesFor : List (String × Nat) := []
+  total : Stat := {}
+  -- current table
+  tabId : String := ""
+  tabT : String := ""
+  tabP : String := ""
+  tabOp : String := ""
+  tabDir : Nat := 0
+  tabTo0 : Int := 0
+  tabKind : String := ""
+  tabStat : Stat := {}
+  tabMis : Nat := 0
+
+abbrev M := StateT St IO
+
+def bump (key : String) (f : Stat → Stat) : M Unit :=
+  modify fun s =>
+    let rec go : List (String × Stat) → List (String × Stat)
+      | [] => [(key, f {})]
+      | (k, v) :: rest => if k == key then (k, f v) :: rest else (k, v) :: go rest
+    { s with stats := go s.stats, total := f s.total }
+
+/-- tags describing the structural class of a failing input (for known-finding predicates) -/
+def tagsOf (t : IntTy) (π : Policy) (op : IntOp) (dir : Dir) (a : Operands) (realStored : Int) : List String :=
+  let x := t.denote π a.x
+  let y := t.denote π a.y
+  let fx := match x with | .fin _ => true | _ => false
+  let fy := match y with | .fin _ => true | _ => false
+  let base := (if t.signed then ["signed"] else ["unsigned"]) ++
+    (if dir == .up || dir == .down then ["directed"] else ["undirected"])
+  let d := match op with
+    | .div =>
+      if t.signed && fx && fy && a.y < 0 && a.y != -1 && a.x.tmod a.y != 0 && (dir == .up || dir == .down)
+      then ["negative_divisor_inexact_quotient"] else []
+    | .umod2exp =>
+      if t.signed && fx && a.x < 0 && a.e + 1 == t.bits && (match t.denote π realStored with | .fin _ => false | _ => true)
+      then ["negative_operand_result_is_special_encoding"] else []
+    | .lcm =>
+      if t.signed && ((fx && -a.x > t.emax π) || (fy && -a.y > t.emax π)) then ["abs_of_operand_overflows"] else []
+    | .subMul =>
+      if t.signed && fx && fy && a.to0 == 0 && a.x * a.y == t.emax π + 1 then ["zero_minuend_product_is_max_plus_one"] else []
+    | .sqrt =>
+      if t.signed && fx && a.x ≥ pow2 (t.bits - 2) then ["signed_operand_ge_quarter_range"] else []
+    | _ => []
+  base ++ d
+
+structure CaseOut where
+  skipped : Bool
+  obligations : List String
+  nontrivial : Bool
+  line : Unit → String
+
+def checkCase (t : IntTy) (π : Policy) (tn pn opn : String) (op : IntOp) (dirN : Nat) (a : Operands)
+    (realStored : Int) (realCode : Nat) : CaseOut :=
+  match Dir.ofCode dirN with
+  | none => { skipped := true, obligations := [], nontrivial := false, line := fun _ => "" }
+  | some dir =>
+    if !IntOp.pre t π op a then { skipped := true, obligations := [], nontrivial := false, line := fun _ => "" }
+    else
+      let realRes := Result.ofNat realCode
+      let (ms, mr) := IntOp.run t π op dir a
+      let msw := t.wrap ms
+      let exact := IntOp.exact t π op a
+      let st := t.denote π realStored
+      let obs : List String :=
+        (if K4.holdsB realRes st exact then [] else ["holds"]) ++
+        (if K4.directedB dir realRes st exact then [] else ["directed"]) ++
+        (if K4.overflowHoldsB realRes (t.emin π) (t.emax π) exact then [] else ["overflow"]) ++
+        (if storedOK t π realStored realRes then [] else ["stored"]) ++
+        (if msw == realStored && mr.toNat == realCode && ms == msw then [] else ["model"])
+      let nontriv := realCode != 1
+      let line : Unit → String := fun _ =>
+        let desc := s!"T={tn} P={pn} op={opn} dir={dirN} to0={a.to0} x={a.x} y={a.y} e={a.e} real={realStored},{realCode} model={msw},{mr.toNat} exact={showExact exact}"
+        if obs.isEmpty then desc
+        else desc ++ " tags=" ++ ",".intercalate (tagsOf t π op dir a realStored)
+      { skipped := false, obligations := obs, nontrivial := nontriv, line := line }
+
+def hexVal (b : UInt8) : Nat :=
+  if b ≥ 48 && b ≤ 57 then (b - 48).toNat else if b ≥ 97 && b ≤ 102 then (b - 87).toNat else 0
+
+def relOfSpecRel (r : Rel) : Nat := r.toNat
+
+def addSample (key : String) (line : String) : M Unit := do
+  let s ← get
+  let cnt := ((s.nSamplesFor.find? (·.1 == key)).map (·.2)).getD 0
+  if cnt < 2 then
+    let rec go : List (String × Nat) → List (String × Nat)
+      | [] => [(key, 1)]
+      | (k, v) :: rest => if k == key then (k, v + 1) :: rest else (k, v) :: go rest
+    set { s with samples := line :: s.samples, nSamplesFor := go s.nSamplesFor }
+
+def record (key : String) (id : String) (o : CaseOut) (perCase : Bool) : M Unit := do
+  if o.skipped then
+    bump key fun s => { s with skipped := s.skipped + 1 }
+    if perCase then IO.println s!"skip {id}"
+  else
+    let bad := !o.obligations.isEmpty
+    bump key fun s => { s with n := s.n + 1, nontrivial := s.nontrivial + (if o.nontrivial then 1 else 0),
+                                bad := s.bad + (if bad then 1 else 0) }
+    if bad then
+      let obs := "+".intercalate o.obligations
+      IO.println s!"MISMATCH {id} {obs} {o.line ()}"
+    else
+      if perCase then IO.println s!"ok {id}"
+      if o.nontrivial then addSample key (o.line ())
+
+def handleRow (key : Nat) (data : ByteArray) : M Unit := do
+  let s ← get
+  let some t := s.cfg.ty s.tabT | return
+  let some π := s.cfg.pol s.tabP | return
+  let skey := s!"{s.tabT} {s.tabP} {s.tabOp}"
+  let id := s.tabId
+  match s.tabKind with
+  | "cmp" =>
+    for i in [0:256] do
+      let real := hexVal (data.get! i)
+      let x := t.wrap key
+      let y := t.wrap i
+      let inC := true
+      let m := (cmpExt t π x y).toNat
+      bump skey fun st => { st with n := st.n + 1 }
+      if inC && m != real then
+        bump skey fun st => { st with bad := st.bad + 1 }
+        IO.println s!"MISMATCH {id} model T={s.tabT} P={s.tabP} op=cmp dir=0 to0=0 x={x} y={y} e=0 real=0,{real} model=0,{m} exact=- tags="
+  | "sgn" =>
+    for i in [0:256] do
+      let real := hexVal (data.get! i)
+      let x := t.wrap i
+      let m := (sgnExt t π x).toNat
+      bump skey fun st => { st with n := st.n + 1 }
+      if m != real then
+        bump skey fun st => { st with bad := st.bad + 1 }
+        IO.println s!"MISMATCH {id} model T={s.tabT} P={s.tabP} op=sgn dir=0 to0=0 x={x} y=0 e=0 real=0,{real} model=0,{m} exact=- tags="
+  | "cls" =>
+    for i in [0:256] do
+      let real := hexVal (data.get! (3*i)) * 256 + hexVal (data.get! (3*i+1)) * 16 + hexVal (data.get! (3*i+2))
+      let x := t.wrap i
+      let m := (classify t π x (key / 4 % 2 == 1) (key / 2 % 2 == 1) (key % 2 == 1)).toNat
+      bump skey fun st => { st with n := st.n + 1 }
+      if m != real then
+        bump skey fun st => { st with bad := st.bad + 1 }
+        IO.println s!"MISMATCH {id} model T={s.tabT} P={s.tabP} op=classify dir={key} to0=0 x={x} y=0 e=0 real=0,{real} model=0,{m} exact=- tags="
+  | kind =>
+    let some op := parseOp s.cfg s.tabOp | return
+    let ft : IntTy := match op with | .assign f _ => f | _ => t
+    let mut n := 0
+    let mut nt := 0
+    let mut sk := 0
+    let mut bad := 0
+    let mut sampleLine : Option String := none
+    for i in [0:256] do
+      let b0 := data.get! (5*i)
+      if b0 == 45 then     -- '-'
+        sk := sk + 1
+      else
+        let sb := hexVal b0 * 16 + hexVal (data.get! (5*i+1))
+        let code := hexVal (data.get! (5*i+2)) * 256 + hexVal (data.get! (5*i+3)) * 16 + hexVal (data.get! (5*i+4))
+        let a : Operands :=
+          match kind with
+          | "bin" => { to0 := s.tabTo0, x := t.wrap key, y := t.wrap i }
+          | "un" => { to0 := s.tabTo0, x := t.wrap i }
+          | "exp" => { to0 := s.tabTo0, x := t.wrap i, e := key }
+          | "asg8" => { to0 := s.tabTo0, x := ft.wrap i }
+          | _ => { to0 := s.tabTo0, x := ft.wrap (key * 256 + i) }
+        let o := checkCase t π s.tabT s.tabP s.tabOp op s.tabDir a (t.wrap sb) code
+        if o.skipped then sk := sk + 1
+        else
+          n := n + 1
+          if o.nontrivial then
+            nt := nt + 1
+            if sampleLine.isNone && o.obligations.isEmpty then sampleLine := some (o.line ())
+          if !o.obligations.isEmpty then
+            bad := bad + 1
+            let obs := "+".intercalate o.obligations
+            IO.println s!"MISMATCH {id} {obs} {o.line ()}"
+    let (n', nt', sk', bad') := (n, nt, sk, bad)
+    bump skey fun st => { st with n := st.n + n', nontrivial := st.nontrivial + nt', skipped := st.skipped + sk', bad := st.bad + bad' }
+    if let some l := sampleLine then addSample skey l
+
+partial def loop (h : IO.FS.Stream) : M Unit := do
+  let line ← h.getLine
+  if line.isEmpty then return
+  let ts := line.trimAscii.toString.splitOn " "
+  match ts with
+  | ["cfg", "type", n, bits, sg, un, ua, us, um, lb] =>
+    let ty : IntTy := IntTy.mk (tokNat bits) (tokB sg) (tokB un) (tokB ua) (tokB us) (tokB um) (tokNat lb)
+    modify fun s => { s with cfg := { s.cfg with types := (n, ty) :: s.cfg.types } }
+  | ["cfg", "policy", n, a, b, c, d, e, f, g, h', i, j] =>
+    let po : Policy := Policy.mk (tokB a) (tokB b) (tokB c) (tokB d) (tokB e) (tokB f) (tokB g) (tokB h') (tokB i) (tokB j)
+    modify fun s => { s with cfg := { s.cfg with pols := (n, po) :: s.cfg.pols } }
+  | ["tab", id, tn, pn, opn, d, to0, kind] =>
+    modify fun s => { s with tabId := id, tabT := tn, tabP := pn, tabOp := opn, tabDir := tokNat d, tabTo0 := tokInt to0,
+                             tabKind := kind }
+  | ["r", key, data] => handleRow (tokNat key) data.toUTF8
+  | ["end", id] => IO.println s!"done {id}"
+  | ["c", id, tn, pn, opn, d, to0, x, y, e, st, code] =>
+    let s ← get
+    match s.cfg.ty tn, s.cfg.pol pn, parseOp s.cfg opn with
+    | some t, some π, some op =>
+      let a : Operands := { to0 := tokInt to0, x := tokInt x, y := tokInt y, e := tokNat e }
+      let o := checkCase t π tn pn opn op (tokNat d) a (tokInt st) (tokNat code)
+      record s!"{tn} {pn} {opn}" id o true
+    | _, _, _ => IO.println s!"MISMATCH {id} parse {line.trimAscii.toString}"
+  | ["q", id, tn, pn, what, x, y, rel] =>
+    let s ← get
+    match s.cfg.ty tn, s.cfg.pol pn with
+    | some t, some π =>
+      let m := if what == "cmp" then (cmpExt t π (tokInt x) (tokInt y)).toNat else (sgnExt t π (tokInt x)).toNat
+      bump s!"{tn} {pn} {what}" fun st => { st with n := st.n + 1 }
+      if m == tokNat rel then IO.println s!"ok {id}"
+      else
+        bump s!"{tn} {pn} {what}" fun st => { st with bad := st.bad + 1 }
+        IO.println s!"MISMATCH {id} model T={tn} P={pn} op={what} dir=0 to0=0 x={x} y={y} e=0 real=0,{rel} model=0,{m} exact=- tags="
+    | _, _ => IO.println s!"MISMATCH {id} parse {line.trimAscii.toString}"
+  | "crash" :: rest =>
+    let st ← get
+    let what := " ".intercalate rest
+    IO.println s!"CRASH {what} table={st.tabId} T={st.tabT} P={st.tabP} op={st.tabOp}"
+  | _ => pure ()
+  loop h
+
 def main (_args : List String) : IO UInt32 := do
-  IO.println "stub"
+  let h ← IO.getStdin
+  let ((), s) ← (loop h).run {}
+  for (k, v) in s.stats.reverse do
+    IO.println s!"stat {k} n={v.n} nontrivial={v.nontrivial} skipped={v.skipped} bad={v.bad}"
+  for l in s.samples.reverse do
+    IO.println s!"sample {l}"
+  IO.println s!"total n={s.total.n} nontrivial={s.total.nontrivial} skipped={s.total.skipped} bad={s.total.bad}"
   return 0
